@@ -264,6 +264,7 @@ impl RuntimeData {
         self.global_vars.clear();
         self.call_stack.clear();
         self.open_upvalues = std::ptr::null_mut();
+        self.memory.reset_gc_threshold();
     }
 
     fn clear_objects(&mut self) {
@@ -280,6 +281,7 @@ impl RuntimeData {
                 .limit
                 .store(capacity, std::sync::atomic::Ordering::Relaxed);
         }
+        self.memory.reset_gc_threshold();
     }
 
     /// Types implementing Drop are not supported, thus the `Copy` bound
